@@ -141,6 +141,26 @@ class SlotChild:
         return object.__getattribute__(self, name)
 
 
+class EqChild:
+    """instances compare and hash equal to one another (a value-like host class)"""
+
+    def __init__(self):
+        object.__setattr__(self, 'pub', 'EQ-PUB')
+
+    def __eq__(self, other):
+        return type(other) is EqChild
+
+    def __hash__(self):
+        return 17
+
+    def __getattribute__(self, name):
+        if name in INFRA:
+            LOG.infra += 1
+        else:
+            LOG.attrs.append(('eq.' + name, hooks.yaql_site(2)))
+        return object.__getattribute__(self, name)
+
+
 class Probe:
     """a yaqlized host object"""
 
@@ -618,7 +638,7 @@ def _policy_extras(mon, rec):
     # what auto-yaqlization marks is the returned object, never its class: an unrelated instance of the same
     # class, which no yaqlized object ever returned, stays out of reach afterwards
     cfg = {'attributes': True, 'methods': True, 'indexer': True, 'wl': 'none', 'bl': 'none', 'rm': 'none'}
-    for cls, prefix, value in ((Child, 'child.', 'CHILD-PUB'), (SlotChild, 'slot.', 'SLOT-PUB')):
+    for cls, prefix, value in ((Child, 'child.', 'CHILD-PUB'), (SlotChild, 'slot.', 'SLOT-PUB'), (EqChild, 'eq.', 'EQ-PUB')):
         p, settings = build_probe(cfg, auto=True)
         object.__getattribute__(p, '__dict__')['child'] = cls()
         first = mon.run('$p.child.pub', {'p': p})
@@ -678,6 +698,37 @@ def _policy_extras(mon, rec):
         if sorted(shared) != before:
             rec.violation('yaqlized-policy:host-settings-object-mutated', 'the %s passed as blacklist became %r' % (kind.__name__, sorted(shared)),
                           {'kind': 'policy-auto', 'auto': False})
+    # yaqlized objects that are also iterable, sequences or mappings: member access still follows their settings
+    import collections.abc as _abc
+
+    class IterProbe(Probe):
+        def __iter__(self):
+            return iter(())
+
+    class SeqProbe(Probe, _abc.Sequence):
+        def __len__(self):
+            return 0
+
+    class MapProbe(Probe, _abc.Mapping):
+        def __iter__(self):
+            return iter(())
+
+        def __len__(self):
+            return 0
+    for cls in (IterProbe, SeqProbe, MapProbe):
+        for text, want in (('$q.pub', 'PUB'), ("$q['pub']", 'ITEM:pub'), ('$q.meth()', 'METH0'), ('$q.other', None), ("$q['other']", None)):
+            q = cls()
+            yaqlization.yaqlize(q, blacklist=['other'])
+            out = mon.run(text, {'q': q})
+            rec.count('policy.cases')
+            rec.case(('policy-container-like', cls.__name__, text), nontrivial=True)
+            if (want is not None and out != ('value', want)) or (want is None and (out[0] == 'value' or not isinstance(
+                    out[1], (AttributeError, KeyError)))):
+                rec.violation('yaqlized-policy:container-like-object:%s' % cls.__name__,
+                              '%s on a yaqlized object that is also %s gives %r (expected %s)' % (
+                                  text, cls.__bases__[-1].__name__ if cls is not IterProbe else 'iterable', out,
+                                  repr(want) if want is not None else 'the refusal of a blacklisted member'),
+                              {'kind': 'policy-auto', 'auto': False})
     # an object that is not subscriptable: the indexer form never turns into attribute access
     class Plain:
         def __init__(self):
